@@ -274,7 +274,14 @@ func runC17(rc *RunCtx) {
 				continue
 			}
 			w := live[rc.Intn(len(live))]
-			s.ProveHonest(provs[rc.Intn(4)], w)
+			if rc.Chance(0.12) {
+				// the prover spells its own address in upper case (also when it is already listed under the usual spelling)
+				if s.ProveHonestUpper(provs[rc.Intn(4)], w).Success {
+					paths["upper-case-prover"] = true
+				}
+			} else {
+				s.ProveHonest(provs[rc.Intn(4)], w)
+			}
 		case k < 63: // delete
 			if len(live) == 0 {
 				continue
